@@ -28,9 +28,20 @@ def top():
     return a + "|" + b
 
 
-def plain():
+def top2():
+    # as top, and the function kept at /q/a is kept once more, at /q/a2, right after it (same signature, another path)
+    a = dds.keep("/q/a", f0)
+    a2 = dds.keep("/q/a2", f0)
+    b = dds.keep("/q/b", f1)
+    return a + "|" + b + "|" + a2
+
+
+def plain(extra=False):
     p = tick.pay("p")
     out = {"/q/a": "a%d:" % VA + p, "/q/c": "c%d:" % VB + p}
     out["/q/b"] = "b:" + out["/q/c"]
     out["top"] = out["/q/a"] + "|" + out["/q/b"]
+    if extra:
+        out["/q/a2"] = out["/q/a"]
+        out["top"] = out["top"] + "|" + out["/q/a2"]
     return out
